@@ -36,7 +36,7 @@ def run(ctx):
     ctx.step(ownership, ctx)
     ctx.step(common.rcu_writer_guard, ctx, "C13.erase-once")
     from . import c05
-    ctx.step(c05.unlink_first, ctx, "C13.unlink")
+    ctx.step(c05.unlink_first, ctx, "C13.unlink", nothrow_after_unlink=True)
     ctx.step(c05.register, ctx, "C13.register")
     ctx.step(uaf, ctx, "C13.uaf", fns(ctx), floor=20)
 
@@ -177,19 +177,31 @@ def ownership(ctx):
     fb = ctx.fb
     for f in fns(ctx):
         if f.name in ("push_front", "push_back", "emplace_front", "emplace_back") and f.rec == "gmlc::libguarded::rcu_list":
-            try:
-                ps = paths(f)
-            except TooManyPaths:
-                ctx.broken("too many paths in " + f.label)
-            rel = [st for st in f.stmts.values() if st["k"] == "CXXMemberCallExpr" and
-                   st["callee"]["name"] == "release" and path(f, f.s(st["obj"])) == "l:newNode"]
-            relpos = {tuple(f.pos_of(st)) for st in rel if f.pos_of(st)}
-            for p in ps:
-                if p[-1][0] != f.exit:
-                    continue
-                cnt = sum(1 for kind, pos, _ in path_positions(f, p) if kind == "elem" and tuple(pos) in relpos)
-                ctx.ob(rid, cnt == 1, f.where, "%s: the new node is released into the list exactly once on this path" % f.name,
-                       "" if cnt == 1 else "released %d times" % cnt, fn=f.label, inst=f.qname)
+            from ..rcu import insertion_body
+            ib = insertion_body(f)
+            if ib is None:
+                ctx.unknown("%s: %s: cannot find the node %s allocates" % (rid, f.where, f.name))
+                continue
+            g, nn, _mk, call_pos = ib
+            todo = [(g, lambda st, g=g, nn=nn: st["k"] == "CXXMemberCallExpr" and st["callee"]["name"] == "release" and
+                     path(g, g.s(st["obj"])) == nn, "the new node is released into the list")]
+            if g is not f:
+                # linking code lives in a private helper: the insertion calls it exactly once, it releases exactly once
+                todo.append((f, lambda st, g=g: st["k"] == "CXXMemberCallExpr" and (st.get("callee") or {}).get("id") == g.id,
+                             "the linking helper %s runs" % g.name))
+            for h, pred, what in todo:
+                try:
+                    ps = paths(h)
+                except TooManyPaths:
+                    ctx.broken("too many paths in " + h.label)
+                rel = [st for st in h.stmts.values() if pred(st)]
+                relpos = {tuple(h.pos_of(st)) for st in rel if h.pos_of(st)}
+                for p in ps:
+                    if p[-1][0] != h.exit:
+                        continue
+                    cnt = sum(1 for kind, pos, _ in path_positions(h, p) if kind == "elem" and tuple(pos) in relpos)
+                    ctx.ob(rid, cnt == 1, h.where, "%s: %s exactly once on this path" % (f.name, what),
+                           "" if cnt == 1 else "%d times" % cnt, fn=h.label, inst=h.qname)
         if f.name == "erase" and f.rec == "gmlc::libguarded::rcu_list":
             allocs = list(_trait_calls(f, "allocate"))
             cas = [st for st in f.stmts.values() if st["k"] == "CXXMemberCallExpr" and
@@ -202,6 +214,21 @@ def ownership(ctx):
                          path(f, f.s(c["args"][1])) == "l:newZombie" for c in cas)
             ctx.ob(rid, ok, f.where, "erase pushes the record it allocated onto the log (CAS with the new record)",
                    "" if ok else "allocated record is not the CAS's desired value", fn=f.label, inst=f.qname)
+            # every path that allocates a record also publishes it (or gives it back)
+            from ..rcu import all_paths
+            try:
+                ps = all_paths(f)
+            except TooManyPaths:
+                ctx.broken("too many paths in " + f.label)
+            for pe in ps:
+                al = [e for e in pe.events if e["k"] == "allocate"]
+                if not al:
+                    continue
+                i0 = pe.events.index(al[0])
+                done = [e for e in pe.events[i0:] if e["k"] in ("cas", "deallocate")]
+                ctx.ob(rid, bool(done), f.loc(al[0]["st"]), "a record allocated by erase is pushed onto the log on every path that "
+                       "follows the allocation", "" if done else "this path returns without publishing or freeing the record "
+                       "(e.g. the node was already erased): the record is unreachable and never freed", fn=f.label, inst=f.qname)
 
 
 def uaf(ctx, rid, functions, floor=1, kinds=None):
